@@ -191,11 +191,6 @@ package boltz
 //@   modifies bucket.Err, bktHas[bucket.Bucket], bktVal[bucket.Bucket]
 //@   ensures[holder] bucket.Err != nil ==> result1 != nil
 
-//@ func (*TypedBucket).EmptyBucket
-//@   props C07
-//@   errflow
-//@   nosafety
-//@   modifies *
 
 //@ func (*TypedBucket).IncrementLinkCount
 //@   props C07 C05
